@@ -246,6 +246,12 @@ try:
             self.errors: typing.List[str] = []
             self.assume_encoding = encoding
             self.passthru_includes = passthru_includes
+            self.opened_files: typing.List[str] = []
+
+        def on_file_open(self, is_system_include, includepath):
+            fp = super().on_file_open(is_system_include, includepath)
+            self.opened_files.append(includepath)
+            return fp
 
         def on_error(self, file, line, msg):
             self.errors.append(f"{file}:{line} error: {msg}")
@@ -384,6 +390,13 @@ def make_pcpp_preprocessor(
 
             if depfile is not None:
                 assert deps is not None
+                # a file that contributes no output line (only macros or
+                # further includes) has no line directive, but it was read
+                known = {os.path.realpath(d) for d in deps}
+                for opened in pp.opened_files:
+                    if os.path.realpath(opened) not in known:
+                        known.add(os.path.realpath(opened))
+                        deps[opened] = True
                 with open(depfile, "w") as dfp:
                     dfp.write(f"{target}:")
                     for dep in reversed(list(deps.keys())):
